@@ -234,14 +234,17 @@ def run(case):
     # ---- from_axes, three pairs
     tol_ax = TOLERANCES["from_axes_angle_rad"]
     sc = rng.uniform(0.5, 3.0, size=(N, 1))
+    # axis-aligned members are also given with exactly snapped components (no 1e-16 noise)
+    snap = bool(rng.random() < 0.5)
+    az, ay, ax_ = (np.round(v, 12) + 0.0 for v in (zz, yy, xx)) if snap else (zz, yy, xx)
     for pair in ("zy", "yx", "zx"):
         kw = {}
         if "z" in pair:
-            kw["z"] = zz * sc
+            kw["z"] = az * (1.0 if snap else sc)
         if "y" in pair:
-            kw["y"] = yy * sc
+            kw["y"] = ay * (1.0 if snap else sc)
         if "x" in pair:
-            kw["x"] = xx * sc
+            kw["x"] = ax_ * (1.0 if snap else sc)
         try:
             m = Molecules.from_axes(pos, **kw)
             err = _ang(m.rotator, R)
